@@ -303,6 +303,37 @@ FftBlockIn(I) ==
     [] I.kind = "FftFixedIn"    -> Max(1, CeilDiv(I.chunkMax \div I.sub, FftA(I))) * FftA(I)
     [] OTHER                    -> Max(1, CeilDiv(I.chunkMax \div I.sub, FftB(I))) * FftA(I)
 
+\* output frames per FFT block
+FftBlockOut(I) == (FftBlockIn(I) \div FftA(I)) * FftB(I)
+\* input frames per output frame, in units
+FftStep(I) == (FftA(I) \div FftB(I)) * ONE + ((FftA(I) % FftB(I)) * ONE) \div FftB(I)
+
+(***************************************************************************)
+(* C05 for the synchronous resamplers, without a twin: fed the index signal *)
+(* x[n] = n + 1, a linear-phase FIR resampler reproduces the linear        *)
+(* function, so once the start-up transient has passed, the instants read  *)
+(* off successive output frames advance by exactly fs_in/fs_out - within a *)
+(* call (FFT block boundaries) and from the last frame of one call to the  *)
+(* first of the next (chunk boundaries).  A frame lost, duplicated,        *)
+(* misplaced or taken from stale storage shows as a spacing that is off by *)
+(* a whole step.  NUMERIC GUARD: f64 only, blocks of at least 64 frames;    *)
+(* tolerance an eighth of a step (measured on the unchanged tree: < 2      *)
+(* units of 2^-20 frame).                                                   *)
+(***************************************************************************)
+C05_FftSmooth(I, ev) ==
+  (ProcOk(ev) /\ IsFft(I.kind) /\ I.signal = "index" /\ I.T = 64 /\ ~I.flushed /\ ~I.pre.flushed
+     /\ Len(ev.taus) > 0 /\ Len(ev.taus) = ev.nout
+     /\ FftBlockIn(I) >= 64 /\ FftBlockOut(I) >= 64
+     /\ \A k \in 1..Len(ev.taus) : SaneTau(ev.taus[k])) =>
+    LET warmOut == ev.pre.delay + 3 * FftBlockOut(I)
+        withPrev == I.pre.warm /\ SaneTau(I.pre.lastTau)
+        S == IF withPrev THEN <<I.pre.lastTau>> \o ev.taus ELSE ev.taus
+        \* output frame number (since the start of the stream) of S[k]
+        Frame(k) == I.pre.totOut + k - 1 - (IF withPrev THEN 1 ELSE 0)
+        step == FftStep(I)
+    IN \A k \in 2..Len(S) :
+         Frame(k - 1) >= warmOut => Abs(Diff(S[k], S[k - 1]) - step) <= (step \div 8) + 4
+
 C07_FftExact(I, ev) ==
   (IsFft(I.kind) /\ IsProc(ev)) =>
     LET d == I.totIn * FftB(I) - I.totOut * FftA(I)
